@@ -3,7 +3,10 @@
    Model/Catalog.v (extends Model/Cache.v).
 
    A history is a list of catalog operations [cop]: every public Linker operation of C07 ([COp]),
-   register_table, dropping a named table through a SplinkDataFrame, realtime compare_records.
+   register_table, the register_* entry points called with the NAME of an existing table ([CRegisterByName]: the
+   cache slot __splink__df_concat_with_tf / __splink__df_predict / __splink__df_tf_<col> then points at a
+   user-owned table; [CHandleByName]: a frame for an existing table), dropping a named table through a
+   SplinkDataFrame, realtime compare_records.
    [cop_safe fx] is the guard of the theorems: the caller never passes overwrite=True / force, does not
    itself change its input rows, debug mode is off, and the realtime cached-SQL path is used only on the
    repaired tree (fx715 fx = true, fix b2f0593c) - debug mode and the unrepaired cached path are the refuted
@@ -47,6 +50,14 @@ Section C18.
       cstep K keqb hash s (CRegisterTable name false ver) = (s, [Refused name]).
   Proof. intros. apply register_refused; auto. Qed.
 
+  (* ... also when the requested name differs from an existing object only in letter case: DuckDB and SQLite resolve
+     table names case-insensitively, so `People` would shadow / replace the user's `people` *)
+  Theorem C18_register_refused_case_insensitive :
+    forall s existing name ver,
+      amem K keqb (st_db K s) (PL K (LPlain existing)) = true -> ci_eqb existing name = true ->
+      cstep K keqb hash s (CRegisterTable name false ver) = (s, [Refused name]).
+  Proof. intros. eapply register_refused_ci; eauto. Qed.
+
   (* dropping through Splink a table Splink did not create is refused (created_by_splink guard) *)
   Theorem C18_drop_refused :
     forall s, (forall name, cstep K keqb hash s (CDropTable name false) = (s, [Refused name])) /\
@@ -74,6 +85,7 @@ End C18.
 Print Assumptions C18_user_tables_untouched.
 Print Assumptions C18_registered_tables_untouched.
 Print Assumptions C18_register_refused.
+Print Assumptions C18_register_refused_case_insensitive.
 Print Assumptions C18_drop_refused.
 Print Assumptions C18_dropped_is_gone.
 Print Assumptions C18_cleanup_exact.
@@ -123,6 +135,22 @@ Example C18_overwrite_replaces :
   aget KI keqbI (st_db KI (crun KI keqbI hashI (c0 true) [CRegisterTable "customers" true 9])) (PL KI (LPlain "customers"))
   = Some {| e_prov := PInput "customers" 9; e_origin := Caller |}.
 Proof. vm_compute. reflexivity. Qed.
+
+(* a cache slot that points at the user's own table: every operation that drops cache entries leaves the table alone
+   (the created_by_splink guards of _drop_stale_df_concat_with_tf, delete_tables_created_by_splink_from_db,
+   drop_table_from_database_and_remove_from_cache); instance of C18_user_tables_untouched *)
+Example C18_slot_pointing_at_user_table :
+  let cs := [CRegisterByName SlotCwtf "customers"; COp Predict; COp (RegisterTF "first_name" 1);
+             CRegisterByName (SlotTf "surname") "r"; CRegisterByName SlotPredict "customers"; COp (Cluster 0);
+             CDropTable "customers" false; COp DeleteTables; COp InvalidateCache] in
+  forallb (cop_safe (fxs true)) cs = true /\
+  aget KI keqbI (st_db KI (crun KI keqbI hashI (c0 true) cs)) (PL KI (LPlain "customers"))
+  = Some {| e_prov := PInput "customers" 0; e_origin := User |}.
+Proof. split; vm_compute; reflexivity. Qed.
+Example C18_case_insensitive_names :
+  ci_eqb "people" "PEOPLE" = true /\ ci_eqb "Customer_View" "customer_view" = true /\ ci_eqb "people" "peoples" = false /\
+  fst (cstep KI keqbI hashI (c0 true) (CRegisterTable "CUSTOMERS" false 3)) = c0 true.
+Proof. repeat split; vm_compute; reflexivity. Qed.
 
 (* ------------------------------------------------------------------ non-vacuity *)
 Definition example_catalog_history : list cop :=
